@@ -66,24 +66,28 @@ Lemma zipR_map_same {A} (op : R -> R -> R) (F G : A -> R) (l : list A) :
   zipR op (map F l) (map G l) = map (fun x => op (F x) (G x)) l.
 Proof. induction l as [|a l IH]; simpl; [reflexivity|]. rewrite IH. reflexivity. Qed.
 
-(** Lipschitz dependence of a weighted sum on its arguments *)
-Lemma sumR_zip_lipschitz (f : R -> R) (L : R) (n a b : list R) :
-  (forall x y, Rabs (f x - f y) <= L * Rabs (x - y)) ->
+(** Lipschitz dependence of a weighted sum on its arguments; the Lipschitz bound is only required
+    on a set [P] (an interval in the application) that contains all arguments *)
+Lemma sumR_zip_lipschitz (P : R -> Prop) (f : R -> R) (L : R) (n a b : list R) :
+  (forall x y, P x -> P y -> Rabs (f x - f y) <= L * Rabs (x - y)) ->
+  Forall P a -> Forall P b ->
   length n = length a -> length a = length b ->
   Rabs (sumR (zipR (fun p q => p * q) n (map f a)) - sumR (zipR (fun p q => p * q) n (map f b)))
   <= L * sumR (zipR (fun p q => p * q) (map Rabs n) (map Rabs (zipR (fun p q => p - q) a b))).
 Proof.
-  intros HL. revert a b. induction n as [|x n IH]; intros [|u a] [|v b] H1 H2; simpl in *;
+  intros HL. revert a b. induction n as [|x n IH]; intros [|u a] [|v b] Pa Pb H1 H2; simpl in *;
     try discriminate.
   - rewrite Rminus_0_r, Rabs_R0. lra.
-  - replace (x * f u + sumR (zipR (fun p q => p * q) n (map f a)) -
+  - inversion Pa; subst. inversion Pb; subst.
+    replace (x * f u + sumR (zipR (fun p q => p * q) n (map f a)) -
              (x * f v + sumR (zipR (fun p q => p * q) n (map f b))))
       with (x * (f u - f v) + (sumR (zipR (fun p q => p * q) n (map f a)) -
                                sumR (zipR (fun p q => p * q) n (map f b)))) by ring.
     eapply Rle_trans; [apply Rabs_triang|].
     rewrite Rabs_mult.
-    assert (I := IH a b ltac:(congruence) ltac:(congruence)).
-    assert (F := HL u v). pose proof (Rabs_pos x). pose proof (Rabs_pos (f u - f v)).
+    assert (I := IH a b ltac:(assumption) ltac:(assumption) ltac:(congruence) ltac:(congruence)).
+    assert (F := HL u v ltac:(assumption) ltac:(assumption)).
+    pose proof (Rabs_pos x). pose proof (Rabs_pos (f u - f v)).
     assert (Rabs x * Rabs (f u - f v) <= Rabs x * (L * Rabs (u - v))) by
       (apply Rmult_le_compat_l; assumption).
     lra.
